@@ -50,9 +50,11 @@ def cks(b: bytes) -> str:
 class FaultFS:
     """Counts / traces / fails the k-th file-system call made on paths below `root`."""
 
-    def __init__(self, root: str, k: int | None, model_rel: str):
+    def __init__(self, root: str, k: int | None, model_rel: str, partial: bool = False):
         self.root = os.path.realpath(root)
         self.k = k
+        self.partial = partial  # a faulted write() first puts the first half of its data on disk (short write, then error)
+        self.partial_fired = False
         self.n = 0
         self.trace: list[str] = []
         self.model_rel = model_rel
@@ -90,7 +92,15 @@ class FileProxy:
     # traced + faultable
     def write(self, data):
         n = len(data) if not isinstance(data, memoryview) else data.nbytes
-        self._fs.tick(f"w:{self._rel}:{0 if self._rel == self._fs.model_rel else n}")
+        try:
+            self._fs.tick(f"w:{self._rel}:{0 if self._rel == self._fs.model_rel else n}")
+        except OSError:
+            if self._fs.partial:
+                mv = memoryview(data).cast("B")
+                self._real.write(mv[: len(mv) // 2])
+                self._real.flush()
+                self._fs.partial_fired = True
+            raise
         return self._real.write(data)
 
     def flush(self):
@@ -392,7 +402,15 @@ class World:
             tp.raw_data = raw
             return ir.serde.TensorProtoTensor(tp)
         if k == "E":
-            loc = os.path.relpath(os.path.join(self.root, it["file"]), self.base)
+            target = os.path.join(self.root, it["file"])
+            if it.get("via_link"):
+                # the tensor names its file through a symbolic link (another spelling of the same file)
+                link = target + ".lnk"
+                if not os.path.islink(link):
+                    os.makedirs(os.path.dirname(link), exist_ok=True)
+                    os.symlink(target, link)
+                target = link
+            loc = os.path.relpath(target, self.base)
             t = ir.ExternalTensor(loc, it["off"], it["len"], dt, shape=ir.Shape(shape), name=it["name"], base_dir=self.base)
             if not it.get("valid", 1):
                 t.invalidate()
@@ -404,6 +422,12 @@ class World:
         p = os.path.join(self.root, self.model_rel)
         if st == "abs":
             return p
+        if st == "symdir":
+            # the destination directory spelled through a symbolic link to it (alias -> real directory)
+            link = os.path.join(self.root, "_lnk")
+            if not os.path.islink(link):
+                os.symlink(self.base, link, target_is_directory=True)
+            return os.path.join(link, self.spec["name"])
         if st == "pathlib":
             return pathlib.Path(p)
         return self.model_rel  # "rel": relative to cwd = root
@@ -425,6 +449,11 @@ class World:
         if isinstance(t, ir.ExternalTensor):
             if not t.valid():
                 return "e:0"
+            if t.nbytes > 0 and self._model_file_rewritten(t):
+                # the file behind the tensor is the model file and no longer holds what it held (finding C20-D5): whatever
+                # numpy() returns now (protobuf bytes, or an error when the file is shorter) is "not the tensor's data";
+                # the Lean model says the same (`FS.read` of a `proto`/emptied file is `none`)
+                return "e:1:ERR"
             try:
                 b = t.numpy().tobytes()
                 return "e:1:" + cks(b)
@@ -436,6 +465,16 @@ class World:
                 except Exception:
                     pass
         return "m:" + cks(t.tobytes())
+
+    def _model_file_rewritten(self, t) -> bool:
+        mp = os.path.join(self.root, self.model_rel)
+        try:
+            if os.path.realpath(t.path) != os.path.realpath(mp):
+                return False
+            with open(mp, "rb") as fh:
+                return fh.read() != self.initial_files.get(self.model_rel)
+        except OSError:
+            return False
 
     def obs_heap(self) -> str:
         return ",".join(self.obs_obj(t) for t in self.objs if t is not None)
@@ -460,6 +499,8 @@ class World:
         for dp, _dn, fn in os.walk(self.root):
             for f in fn:
                 p = os.path.join(dp, f)
+                if os.path.islink(p):  # other spellings of files listed under their real names
+                    continue
                 with open(p, "rb") as fh:
                     out[os.path.relpath(p, self.root)] = fh.read()
         return out
@@ -599,7 +640,8 @@ def run_real(spec: dict, k: int | None) -> dict:
             for it, t in zip(spec.get("inits", []), w.tensors) if t is not None
         ]
         struct_expected = w.struct_expected()
-        fs = FaultFS(w.root, k, w.model_rel)
+        fs = FaultFS(w.root, k, w.model_rel, partial=bool(spec.get("partial")))
+        partial_fired = 0
         log = {"total": None, "updates": 0, "desc": []}
         exc = None
         mode = int(spec.get("verbose", 0))
@@ -608,8 +650,21 @@ def run_real(spec: dict, k: int | None) -> dict:
         path = w.model_path()
         devnull = io.StringIO()
         real_stderr = sys.stderr
+        prior_res = []
         try:
             sys.stderr = devnull
+            # history: earlier calls on the SAME model object and destination, each under its own fault plan; what they
+            # leave behind (files, caches inside the tensor objects, names) is what the observed call starts from
+            for pk in spec.get("prior") or []:
+                pfs = FaultFS(w.root, pk, w.model_rel, partial=bool(spec.get("partial")))
+                pexc = None
+                with tqdm_mode(mode, {"total": None, "updates": 0, "desc": []}), fault_scope(pfs):
+                    try:
+                        api.save_model_with_external_data(w.model, path, verbose=bool(mode))
+                    except BaseException as e:  # noqa: BLE001
+                        pexc = e
+                prior_res.append(err_class(pexc))
+                partial_fired += int(pfs.partial_fired)
             with tqdm_mode(mode, log), fault_scope(fs):
                 try:
                     api.save_model_with_external_data(w.model, path, verbose=bool(mode))
@@ -626,7 +681,7 @@ def run_real(spec: dict, k: int | None) -> dict:
             descs.append(f"{m.group(1)}@{m.group(2)}" if m else "?" + d)
         cb = (str(log["total"]) if log["total"] is not None else "-") + ";" + ",".join(descs)
         after = {"ids": w.obs_ids(), "heap": w.obs_heap(), "graph": w.obs_graph(), "files": w.obs_files()}
-        line = " | ".join([
+        line = " | ".join(([("prior=" + ",".join(prior_res))] if prior_res else []) + [
             f"res={err_class(exc)}",
             f"calls={fs.n}",
             "trace=" + ",".join(fs.trace),
@@ -640,6 +695,8 @@ def run_real(spec: dict, k: int | None) -> dict:
         return {
             "line": line,
             "res": err_class(exc),
+            "prior_res": prior_res,
+            "partial_fired": partial_fired + int(fs.partial_fired),
             "exc": None if exc is None else f"{type(exc).__name__}: {str(exc)[:200]}",
             "calls": fs.n,
             "fired": fs.fired,
@@ -678,10 +735,11 @@ def model_line(spec: dict, k: int | None, deep: int) -> str:
     mode = int(spec.get("verbose", 0))  # 0 quiet, 1 verbose with tqdm, 2 verbose without tqdm
     verbose = 1 if mode else 0
     tqdm = 0 if mode == 2 else 1
+    prior = spec.get("prior") or []
     return " ".join([
-        "save", f"{deep}{tqdm}", str(verbose), "-" if k is None else str(k), spec.get("dir") or "-", spec["name"], files,
-        ";".join(parts) or "-",
-    ])
+        "hist" if prior else "save", f"{deep}{tqdm}", str(verbose), "-" if k is None else str(k), spec.get("dir") or "-",
+        spec["name"], files, ";".join(parts) or "-",
+    ] + ([",".join("n" if pk is None else str(pk) for pk in prior)] if prior else []))
 
 
 # --------------------------------------------------------------------------- outside the model: function bodies
